@@ -149,14 +149,17 @@ func (s *SecureChannel) VerifInstances() []VerifToken {
 // VerifSetSequenceNumber sets the sequence number of the active instance (to
 // start a test close to the wrap-around point).
 func (s *SecureChannel) VerifSetSequenceNumber(n uint32) bool {
+	// never hold instancesMu while waiting for an instance: a renewal holds
+	// the instance and takes instancesMu when the response arrives
 	s.instancesMu.Lock()
-	defer s.instancesMu.Unlock()
-	if s.activeInstance == nil {
+	active := s.activeInstance
+	s.instancesMu.Unlock()
+	if active == nil {
 		return false
 	}
-	s.activeInstance.Lock()
-	s.activeInstance.sequenceNumber = n
-	s.activeInstance.Unlock()
+	active.Lock()
+	active.sequenceNumber = n
+	active.Unlock()
 	return true
 }
 
@@ -172,13 +175,14 @@ func (s *SecureChannel) VerifSetReceivedSequenceNumber(n uint32) {
 // the active instance and the number of the last chunk the channel accepted.
 func (s *SecureChannel) VerifSequenceNumbers() (sent, received uint32, ok bool) {
 	s.instancesMu.Lock()
-	defer s.instancesMu.Unlock()
-	if s.activeInstance == nil {
+	active := s.activeInstance
+	s.instancesMu.Unlock()
+	if active == nil {
 		return 0, 0, false
 	}
-	s.activeInstance.Lock()
-	sent = s.activeInstance.sequenceNumber
-	s.activeInstance.Unlock()
+	active.Lock()
+	sent = active.sequenceNumber
+	active.Unlock()
 	return sent, s.recvSeq, s.recvSeqSet
 }
 
